@@ -184,7 +184,7 @@ def grid_cases(ctx):
     from allmydata.mutable.repairer import MustForceRepairError
     from allmydata.storage.mutable import MutableShareFile
     OFF = MutableShareFile.DATA_OFFSET
-    n = ctx.n(8, 60)
+    n = ctx.n(16, 80)
     for i in range(n):
         r = ctx.rng("grid", i)
         seed = r.getrandbits(30)
@@ -192,11 +192,19 @@ def grid_cases(ctx):
         S = r.choice([N, N + 1, N + 2])
         fmt = r.choice(["sdmf", "sdmf", "mdmf"])
         verify = r.random() < 0.5
-        scenario = r.choice(["intact", "delete", "delete", "stale", "newer-unrecoverable", "corrupt"])
+        scenario = r.choice(["intact", "delete", "delete", "stale", "newer-unrecoverable", "corrupt", "far-stale", "far-stale"])
+        if scenario == "far-stale":
+            # the newest version survives only on the servers a 2k-server read survey reaches last
+            k, N = r.choice([(3, 10), (2, 8), (3, 9)])
+            S = N
         if scenario == "corrupt" and (fmt != "sdmf" or not verify):
             scenario = "delete"
         case = {"seed": seed, "k": k, "N": N, "servers": S, "format": fmt, "verify": verify, "scenario": scenario}
-        with G.Grid(num_clients=1, num_servers=S, k=k, n=N, happy=1, seed=seed, timeout=240) as g:
+        # strict issue-order delivery for far-stale: with answers delivered one at a time in random order the
+        # read survey keeps widening and reaches the far servers anyway
+        fifo = "global" if scenario == "far-stale" else r.choice(["server", "server", "global"])
+        case["fifo"] = fifo
+        with G.Grid(num_clients=1, num_servers=S, k=k, n=N, happy=1, seed=seed, timeout=240, fifo=fifo) as g:
             node = g.run(g.create_mutable(b"version-one", version=fmt))
             snap1 = {(sh.server, sh.shnum): g.read_share(sh) for sh in g.find_shares(node.get_uri())}
             newest = b"version-one"
@@ -206,13 +214,19 @@ def grid_cases(ctx):
                 r.shuffle(shs)
                 for sh in shs[:r.randrange(1, len(shs))]:
                     g.delete_share(sh)
-            elif scenario in ("stale", "newer-unrecoverable"):
+            elif scenario in ("stale", "newer-unrecoverable", "far-stale"):
                 g.run(g.mutable_overwrite(node, b"version-two!"))
                 newest = b"version-two!"
                 cur = {(sh.server, sh.shnum): sh for sh in g.find_shares(node.get_uri())}
                 keys = sorted(kk for kk in snap1 if kk in cur)
                 r.shuffle(keys)
-                if scenario == "stale":
+                if scenario == "far-stale":
+                    order = g.storage_broker_order(node.get_uri())
+                    near = set(order[:2 * k])                  # what MODE_READ asks before it may stop
+                    chosen = [kk for kk in keys if kk[0] in near]
+                    if len(keys) - len(chosen) < k:            # keep the newest version recoverable
+                        chosen = chosen[:len(keys) - k]
+                elif scenario == "stale":
                     chosen = keys[:r.randrange(1, len(keys))]
                 else:
                     chosen = keys[:len(keys) - (k - 1)] if k > 1 else keys[:len(keys) - 1]   # leave k-1 (>=1) shares of v2... at least one
@@ -230,10 +244,10 @@ def grid_cases(ctx):
                 g.write_share(sh, data[:pos] + bytes([data[pos] ^ 1]) + data[pos + 1:])
                 corrupted.add((sh.server, sh.shnum))
 
-            def disk_state():
+            def disk_state(skip_corrupted=True):
                 byver = {}
                 for sh in g.find_shares(node.get_uri()):
-                    if (sh.server, sh.shnum) in corrupted:
+                    if skip_corrupted and (sh.server, sh.shnum) in corrupted:
                         continue
                     byver.setdefault(share_version(g, sh), set()).add(sh.shnum)
                 return byver
@@ -288,7 +302,7 @@ def grid_cases(ctx):
                 ctx.oracle_fail("grid-repair-changed-contents", "after repair the file reads %r, best version before repair was %r" % (rd.value, best_content), case=case,
                                 expected=best_content, observed=rd.value)
                 continue
-            post = disk_state()
+            post = disk_state(skip_corrupted=False)      # a successful repair has replaced the corrupted share
             top = max(post)
             if len(post[top]) < N:
                 ctx.oracle_fail("grid-repair-not-N-shares", "after a successful repair the newest version has %d distinct shares, N=%d" % (len(post[top]), N), case=case)
